@@ -999,7 +999,7 @@ class Fxp():
                     val = raw_val
                 else:
                     val = raw_val // self._get_conv_factor()
-                    val = np.array(list(map(int, val.flatten()))).reshape(val.shape)
+                    val = utils.int_array(np.asarray(val))     # also a 0-d object array (wide scalar), whose // gives a Python int
                 
             elif dtype == complex or np.issubdtype(dtype, np.complexfloating):
                 val = (raw_val.real + 1j * raw_val.imag) / self._get_conv_factor()
